@@ -27,7 +27,8 @@ RULE = (
     "Engine G: every combination of {logistic, linear, shared_speed_logistic, joint} x 3 (dimension, sources) settings x "
     "{dict of list/tuple/float64-array/float32-array/int-array/int-list/scalar/int-scalar/numpy-scalar, MultiIndex built from "
     "tuples/arrays/frame or sliced (mask / positions / table filter) out of the index of a larger cohort, so that it carries unused levels, with "
-    "IndividualParameters holding the requested individuals only or the whole cohort} x to_dataframe {None, True, False} on a fixed 3-individual request (unsorted ages with a repeat, "
+    "IndividualParameters holding the requested individuals only or the whole cohort; levels ordered (ID,TIME), (TIME,ID) or any order of "
+    "(ID,TIME,SPLIT)} x to_dataframe {None, True, False} on a fixed 3-individual request (unsorted ages with a repeat, "
     "single age, age = tau). Engine H: Hypothesis cases = model kind x dimension 1-4 x source dimension x admissible parameters "
     "(log_g in [-3,3], log_v0 in [-6,-1], g (linear) in [-3,3], deltas in [-3,3], betas in [-1,1], tau_mean in [40,90]) x 1-5 requested "
     "individuals (+0-2 known but not requested) with xi within +-2 (extreme +-5) of the prior mean, tau within 3 std, sources "
@@ -66,6 +67,10 @@ ASSUMPTIONS = [
     "(StatefulModel.initialize / load_parameters body; the MCMC-SAEM maximisation step also assigns parameters on model.state in place).",
     "Ages are arbitrary finite reals (zero, negative, far backward extrapolation; reference times <= 0 as when time is counted from "
     "onset or baseline); identifiers are strings (IndividualParameters refuses anything else).",
+    "A MultiIndex request may have its levels in any order and carry one extra level (SPLIT): all 8 layouts (ID,TIME), (TIME,ID) and "
+    "the 6 orders of (ID, TIME, SPLIT) are answered correctly by the tree at the time of writing (estimate selects ID and TIME by name and "
+    "joins on the names; the source comment says 'join so to handle multi-levels cases'), so all are in the domain; the output index must "
+    "equal the input index (names, order, rows) and row k must hold the closed form at the k-th (ID, TIME) read by level name.",
     "A MultiIndex request may carry unused levels (index sliced out of a larger cohort by mask, position or table filter): only the "
     "individuals present in the index are requested, whether or not the IndividualParameters know the others.",
 ]
@@ -81,6 +86,7 @@ REQUIRED_CLASSES = {
     "ages:non-positive": 0.15, "ages:zero": 0.05, "tau:non-positive": 0.03,
     "ages:non-positive:scalar": 30, "ages:non-positive:index": 0.05, "ages:non-positive:list": 0.02, "ages:non-positive:tuple": 50, "ages:non-positive:ndarray64": 50,
     "multiindex:sliced-unused-levels": 0.05, "multiindex:sliced:ip-requested-only": 0.02, "multiindex:sliced:ip-whole-cohort": 0.02,
+    "multiindex:time-before-id": 0.05, "multiindex:extra-level": 0.05,
     "mi:slice-mask": 0.01, "mi:slice-positional": 0.01, "mi:slice-frame": 0.01,
     "updates:load": 0.03, "updates:state": 0.03, "updates:trajectory-parameters-changed": 0.05, "updates:nontrivial": 0.01,
 }
@@ -244,6 +250,23 @@ def mi_pairs(case):
 
 
 def make_multiindex(case):
+    """MultiIndex request; `mi_levels` (default [ID, TIME]) gives the order of the levels and may contain an extra level SPLIT
+    (estimate selects the ID and TIME levels by name)."""
+    import pandas as pd
+
+    ix, pairs = _make_multiindex_id_time(case)
+    levels = case.get("mi_levels") or ["ID", "TIME"]
+    if levels == ["ID", "TIME"]:
+        return ix, pairs
+    if levels == ["TIME", "ID"] and case.get("mi_build") != "frame":
+        return ix.swaplevel(), pairs  # df.swaplevel().index: keeps unused levels of a sliced index
+    table = ix.to_frame(index=False)
+    if "SPLIT" in levels:
+        table["SPLIT"] = list(case["mi_split"])
+    return table.set_index(list(levels)).index, pairs  # df.set_index([...]).index
+
+
+def _make_multiindex_id_time(case):
     import pandas as pd
 
     pairs = mi_pairs(case)
@@ -361,11 +384,17 @@ def judge(col: Collector, case, *, allow_excluded=False, sub="estimate", model_c
         classes.append("mi:build-" + case.get("mi_build", "tuples"))
         if case.get("mi_build") == "sliced":
             classes.append("mi:slice-" + case.get("mi_slice", "mask"))
-            if len(ix.levels[0]) > len(set(ix.get_level_values(0))):
+            if len(ix.levels[list(ix.names).index("ID")]) > len(set(ix.get_level_values("ID"))):
                 classes.append("multiindex:sliced-unused-levels")
                 classes.append("multiindex:sliced:ip-" + ("whole-cohort" if any(i not in requested_ids for i in case["ip_order"]) else "requested-only"))
         if case.get("mi_int_time"):
             classes.append("mi:int-time")
+        names_ = list(ix.names)
+        classes.append("mi:levels-" + "-".join(names_))
+        if names_.index("TIME") < names_.index("ID"):
+            classes.append("multiindex:time-before-id")
+        if len(names_) > 2:
+            classes.append("multiindex:extra-level")
         keys = [(case["inds"][i]["id"], case["inds"][i]["ages"][j]) for i, j in pairs]
         if len(set(keys)) < len(keys):
             classes.append("mi:repeated-pair")
@@ -459,11 +488,12 @@ def _judge_layout(col, case, rec, sub, out, expect_df, ix, pairs, refs, tols, fe
         if len(out) != len(exp_keys):
             col.fail(sub, "layout:row-count", rec, observed=f"{len(out)} rows: {list(out.index)[:12]}", expected=f"{len(exp_keys)} rows: {exp_keys[:12]}")
             return
-        if list(out.index.names) != ["ID", "TIME"]:
-            col.fail(sub, "layout:index-names", rec, observed=list(out.index.names), expected=["ID", "TIME"])
+        want_names = list(ix.names) if ix is not None else ["ID", "TIME"]
+        if list(out.index.names) != want_names:
+            col.fail(sub, "layout:index-names", rec, observed=list(out.index.names), expected=want_names)
             return
-        got_keys = [tuple(k) for k in out.index]
-        if any(len(k) != 2 or k[0] != e[0] or not (k[1] == e[1]) for k, e in zip(got_keys, exp_keys)):
+        got_keys = list(zip(out.index.get_level_values("ID"), out.index.get_level_values("TIME")))
+        if any(k[0] != e[0] or not (k[1] == e[1]) for k, e in zip(got_keys, exp_keys)):
             col.fail(sub, "layout:index-order", rec, observed=got_keys[:12], expected=exp_keys[:12])
             return
         if ix is not None and not out.index.equals(ix):
@@ -655,6 +685,11 @@ def case_strategy(draw, kinds=("logistic", "linear", "shared_speed_logistic", "j
         case["mi_order"] = list(range(total)) if how == "grouped" else list(draw(st.permutations(list(range(total)))))
         case["mi_build"] = mi_build
         case["mi_int_time"] = all(float(a).is_integer() for p in inds for a in p["ages"]) and draw(st.booleans())
+        lv = draw(st.sampled_from([None, None, None, ["TIME", "ID"], ["TIME", "ID"]] + [list(q) for q in itertools.permutations(["ID", "TIME", "SPLIT"])]))
+        if lv is not None:
+            case["mi_levels"] = lv
+            if "SPLIT" in lv:
+                case["mi_split"] = [draw(st.sampled_from(["train", "test"])) for _ in range(total)]
         if mi_build == "sliced":
             # rows of the not-requested individuals of the larger cohort, inserted at drawn positions of the request
             ins = []
@@ -764,6 +799,9 @@ def grid_cases(kind):
                     total = sum(len(p["ages"]) for p in inds)
                     case["mi_order"] = list(range(total)) if order == "grouped" else [(3 * k + 1) % total for k in range(total)]  # total = 10
                     yield case
+                    if order == "interleaved" and not int_time and build in ("tuples", "frame", "sliced:mask:cohort", "sliced:positional:requested"):
+                        for lv in [["TIME", "ID"]] + [list(q) for q in itertools.permutations(["ID", "TIME", "SPLIT"])]:
+                            yield dict(case, mi_levels=lv, mi_split=[("train", "test", "test")[k % 3] for k in range(total)])
 
 
 def _grid_excluded(case):
@@ -904,6 +942,10 @@ def update_case_strategy(draw, kinds=("logistic", "linear", "shared_speed_logist
         case["mi_order"] = list(draw(st.permutations(list(range(total)))))
         case["mi_build"] = draw(st.sampled_from(["tuples", "arrays", "frame"]))
         case["mi_int_time"] = False
+        lv = draw(st.sampled_from([None, None, ["TIME", "ID"]] + [list(q) for q in itertools.permutations(["ID", "TIME", "SPLIT"])]))
+        if lv is not None:
+            case["mi_levels"] = lv
+            case["mi_split"] = [draw(st.sampled_from(["train", "test"])) for _ in range(total)]
     updates = []
     for _ in range(draw(st.integers(1, 3))):
         new = _params(draw, kind, dim, sd, case["noise"])
